@@ -2100,7 +2100,7 @@ func c33Recover(j *c33Job, vs *c33Viols, st *c33Stats, curFile string) {
 		}
 		if class == "acked-commit-lost-after-recovery" {
 			if d, ok := snapshot.files[c33DataDir+"/groups.log"]; ok {
-				if _, valid := readEntries(d.data); valid < len(d.data) {
+				if c33ValidFramedBytes(d.data) < len(d.data) {
 					suffix = "torn-groups-log-tail-not-truncated"
 				}
 			}
@@ -2387,6 +2387,24 @@ func c33CheckPost(obs *c33Obs, post *c33Post, o3 *c33Obs) (vs []c33V) {
 		}
 	}
 	return vs
+}
+
+// c33ValidFramedBytes is the harness' own reading of the framed state-log
+// format ([len u32le][crc32c u32le][version u16le + data]): number of leading
+// bytes that form whole, checksummed entries.
+func c33ValidFramedBytes(raw []byte) int {
+	pos := 0
+	for pos+10 <= len(raw) {
+		l := int(binary.LittleEndian.Uint32(raw[pos:]))
+		if l < 2 || pos+8+l > len(raw) {
+			break
+		}
+		if crc32.Checksum(raw[pos+8:pos+8+l], crc32.MakeTable(crc32.Castagnoli)) != binary.LittleEndian.Uint32(raw[pos+4:]) {
+			break
+		}
+		pos += 8 + l
+	}
+	return pos
 }
 
 // c33IndexBehindSegment reports whether some segment file of the crash state
